@@ -178,4 +178,28 @@ theorem generator_consumed : (initialGenerator.member "deprecated").2 = .generat
     (initialGenerator.member "foo").2 = .generator [] ∧ ((PrinterState.generator []).member "deprecated").1 = false := by
   decide
 
+/-! #### text-level refutation for today's code (finding H1) -/
+
+/-- `type Query { f: Int @deprecated }`, built from SDL (the field's node carries the `@deprecated` application) -/
+def h1Schema : SchemaD :=
+  { types := [{ kind := .object, name := "Query", fields := [{ name := "f", type := .named "Int", deprecated := some "No longer supported" }] }] }
+def h1Apps : Apps := [("Query.f", [{ name := "deprecated" }])]
+def h1Call : Opts × SchemaD × Apps := ({ custom := true }, h1Schema, h1Apps)
+
+set_option maxRecDepth 100000 in
+/-- With the generator-valued state the full statement is FALSE: the second of two identical
+    `to_string(include_custom_schema_directives=True)` calls returns a different TEXT
+    (`f: Int @deprecated @deprecated`). -/
+theorem print_pure_refuted_today_full : ¬ PrintPureStatement initialGenerator := by
+  intro h
+  have := h [h1Call, h1Call]
+  revert this
+  decide
+
+set_option maxRecDepth 100000 in
+/-- non-vacuity of `print_pure`: on the same two calls the fixed code returns the same non-empty text twice -/
+example : runHistory initialCollection [h1Call, h1Call] = [(printSchema h1Call.1 h1Call.2.1 h1Call.2.2 initialCollection).1,
+    (printSchema h1Call.1 h1Call.2.1 h1Call.2.2 initialCollection).1] ∧ (printSchema h1Call.1 h1Call.2.1 h1Call.2.2 initialCollection).1 ≠ "" := by
+  decide
+
 end PyGql.Props.C12
